@@ -66,6 +66,14 @@ Definition now_after (g : ghost) (o : op) : Z :=
 Definition know_set (k : subj -> issuer -> option (Z * tok)) (s : subj) (i : issuer) (v : option (Z * tok)) :=
   fun s' i' => if (s' =? s)%nat && (i' =? i)%nat then v else k s' i'.
 
+(* The not-on-or-after time of the information a Response carries, from the text: the end of the session as
+   stated by the IdP (AuthnStatement/@SessionNotOnOrAfter); when it states none, the end of the assertion's
+   validity (Conditions/@NotOnOrAfter); when neither is stated, no time (0: never returnable under the check).
+   `effective_nooa` (used by the monitor below) is this time for every Response accepted at a clock after the
+   epoch: Proofs.accepted_expiry_is_session_end. *)
+Definition info_nooa (cond_nooa sess_nooa : option Z) : Z :=
+  match sess_nooa with Some t => t | None => match cond_nooa with Some t => t | None => 0 end end.
+
 Definition know_op (g : ghost) (o : op) (ou : out) : subj -> issuer -> option (Z * tok) :=
   match o, ou with
   | Login s i nooa t, _ => know_set (g_know g) s i (Some (nooa, t))
